@@ -946,8 +946,18 @@ NOINSTR char *__wrap_setlocale(int cat, const char *loc) {
 	fired(F_TRIPWIRE);
 	// "" asks for the environment's locale: seeded among the locales installed here
 	if (loc && !*loc) {
-		static const char *ls[] = {"C", "C.utf8", "POSIX"};
-		loc = ls[S.triprng.next() % 3];
+		static const char *ls[] = {"C", "C.utf8", "POSIX", "xx_XX"};
+		// xx_XX: LC_NUMERIC with a decimal comma, compiled by the check with localedef (lib/build_b.py)
+		const char *lp = __real_getenv("SIMB_LOCPATH");
+		loc = ls[S.triprng.next() % (lp ? 4 : 3)];
+		if (loc[0] == 'x') {
+			S.in_sut = false;
+			setenv("LOCPATH", lp, 1);
+			char *r = __real_setlocale(cat, "C");
+			if (cat == LC_ALL || cat == LC_NUMERIC) { if (__real_setlocale(LC_NUMERIC, "xx_XX")) ev(0x4c, 1); }
+			S.in_sut = true;
+			return r;
+		}
 	}
 	return __real_setlocale(cat, loc);
 }
